@@ -221,8 +221,19 @@ Definition get_new_pathname (names : list str) (dflt : nat) (base : str) (tabs :
     end in
   match r with Panic s => Panic s | Ok pb => Ok (pb_build pb) end.
 
-Definition url_suffix (search hash : str) : str :=
-  (if nonempty search then qmark :: search else []) ++ (if nonempty hash then hashc :: hash else []).
+(** query and fragment are appended as given by [Location]: [search] never has its '?', while
+    [hash] is [window.location.hash] on the client (leptos_router 0.7.8 stores it unmodified:
+    "#top"), the empty string on the server, and a bare "top" only in tests.  The repaired code
+    pushes '#' only when [hash] does not already start with one. *)
+Definition starts_with_hash (h : str) : bool := match h with c :: _ => c =? hashc | [] => false end.
+Definition hash_part (hash : str) : str :=
+  if nonempty hash then (if starts_with_hash hash then hash else hashc :: hash) else [].
+(** before the repair (2cc600f): an unconditional '#' *)
+Definition hash_part_old (hash : str) : str := if nonempty hash then hashc :: hash else [].
+Definition search_part (search : str) : str := if nonempty search then qmark :: search else [].
+
+Definition url_suffix (search hash : str) : str := search_part search ++ hash_part hash.
+Definition url_suffix_old (search hash : str) : str := search_part search ++ hash_part_old hash.
 
 Definition get_new_path (names : list str) (dflt : nat) (base : str) (tabs : tables)
   (path search hash : str) (new : nat) (old : option nat) : res str :=
@@ -261,7 +272,15 @@ Definition get_new_path_old (names : list str) (dflt : nat) (base : str) (tabs :
   (path search hash : str) (new : nat) (old : option nat) : res str :=
   match get_new_pathname_old names dflt base tabs path new old with
   | Panic s => Panic s
-  | Ok p => Ok (p ++ url_suffix search hash)
+  | Ok p => Ok (p ++ url_suffix_old search hash)
+  end.
+
+(** the current path algorithm with the pre-2cc600f fragment handling (for the refutation) *)
+Definition get_new_path_double_hash (names : list str) (dflt : nat) (base : str) (tabs : tables)
+  (path search hash : str) (new : nat) (old : option nat) : res str :=
+  match get_new_pathname names dflt base tabs path new old with
+  | Panic s => Panic s
+  | Ok p => Ok (p ++ url_suffix_old search hash)
   end.
 
 (** a history of locale switches: the [locale] argument is the context's previous locale
@@ -516,6 +535,29 @@ Fixpoint hist_valid_b (names : list str) (dflt : nat) (t : list (list aseg)) (a 
 
 (** * The specification *)
 
+(** The fragment of a URL as [Location.hash] denotes it: the text after ONE leading '#', or the whole
+    text when there is none (bare form).  A [hash] that starts with '#' is read as the browser form;
+    a bare fragment that itself starts with '#' cannot be told apart from it and is not a separate
+    case.  The property demands that the new URL carries the same fragment: "#" ++ fragment when the
+    fragment is non-empty, nothing otherwise.
+    Undecidable input: [hash = "#"] alone (a browser never reports it; it is the browser form of the
+    empty fragment or the bare form of the fragment "#").  The code emits "…#", an empty fragment
+    spelled out; the spec would demand no '#'.  [hash_decidable] keeps it out of the judged population. *)
+Definition fragment_of (hash : str) : str :=
+  match hash with c :: r => if c =? hashc then r else hash | [] => [] end.
+Definition spec_suffix (search hash : str) : str :=
+  (if nonempty search then qmark :: search else []) ++
+  (if nonempty (fragment_of hash) then hashc :: fragment_of hash else []).
+Definition hash_decidable (hash : str) : bool := negb (str_eqb hash [hashc]).
+
+(** [Location.hash] after navigating to a URL whose fragment part is [part] ("" or "#" ++ fragment):
+    the browser reports "#" ++ fragment ("" for an empty fragment), a test double the bare fragment *)
+Definition reparse_hash (browser : bool) (part : str) : str :=
+  let f := fragment_of part in
+  if browser then (if nonempty f then hashc :: f else []) else f.
+Fixpoint hash_after (emit : str -> str) (browser : bool) (n : nat) (h : str) : str :=
+  match n with O => h | S k => hash_after emit browser k (reparse_hash browser (emit h)) end.
+
 Definition res_str_eqb (r : res str) (s : str) : bool :=
   match r with Ok x => str_eqb x s | Panic _ => false end.
 
@@ -524,13 +566,13 @@ Definition res_str_eqb (r : res str) (s : str) : bool :=
     segment in [b]'s spelling, every captured value unchanged, same query and fragment *)
 Definition spec_switch (names : list str) (dflt : nat) (bsegs : list str) (inst : list iseg)
   (search hash : str) (b : nat) (out : res str) : bool :=
-  res_str_eqb out (url_path names dflt bsegs b inst ++ url_suffix search hash).
+  res_str_eqb out (url_path names dflt bsegs b inst ++ spec_suffix search hash).
 
 (** first-match semantics: the rewritten URL has the expected segments of the first reading *)
 Definition spec_first_match (names : list str) (dflt : nat) (bsegs : list str) (t : list (list aseg))
   (a b : nat) (segs : list str) (search hash : str) (out : res str) : bool :=
   res_str_eqb out (render_path (bsegs ++ prefix_of names dflt b ++ expected_segs (length names) t a b segs)
-                   ++ url_suffix search hash).
+                   ++ spec_suffix search hash).
 
 Definition opt_nat_eqb (a b : option nat) : bool :=
   match a, b with Some x, Some y => Nat.eqb x y | None, None => true | _, _ => false end.
